@@ -390,3 +390,52 @@ def yp_nodes(d):
 
     walk(J, 0, True)
     return counts, bodies
+
+
+# --------------------------------------------------------------------------------------------
+# independent walker over a database of encoded nodes (oracle for C03 / C07 / C08)
+# --------------------------------------------------------------------------------------------
+BLANK_ROOT = keccak(rlp.encode(b""))
+
+
+def hp_decode(k):
+    """hex-prefix decoding -> (nibbles, is_leaf)"""
+    ns = _nib(k)
+    flag = ns[0]
+    ns = ns[1:] if flag & 1 else ns[2:]
+    return tuple(ns), bool(flag & 2)
+
+
+def resolve(db, ref):
+    """child reference -> (raw node, hash or None); raises KeyError(hash) when absent"""
+    if ref == b"":
+        return b"", None
+    if isinstance(ref, list):
+        return ref, None
+    if ref == BLANK_ROOT:
+        return b"", None
+    return rlp.decode(db[ref]), ref
+
+
+def path_walk(db, root_hash, nibbles):
+    """Nodes met when following `nibbles` from the root, as [(prefix, raw node, hash or None)],
+    stopping where the key's path leaves the trie. Missing bodies raise KeyError(hash)."""
+    out = []
+    node, h = resolve(db, root_hash)
+    pre = ()
+    rem = tuple(nibbles)
+    while True:
+        if node == b"":
+            return out
+        out.append((pre, node, h))
+        if len(node) == 2:
+            p, leaf = hp_decode(node[0])
+            if leaf or rem[:len(p)] != p:
+                return out
+            pre, rem = pre + p, rem[len(p):]
+            node, h = resolve(db, node[1])
+        else:
+            if not rem:
+                return out
+            pre, a, rem = pre + (rem[0],), rem[0], rem[1:]
+            node, h = resolve(db, node[a])
